@@ -286,7 +286,7 @@ def run_srv():
         res["dropped_statements"] = info["dropped"]
         key = _cache_key(translate_srv.OUT, ["PySrv.lean", "Core.lean", "Store.lean", "Sys.lean", "Sql.lean", "GeneratedSql.lean",
                                              "Tie/Srv.lean", "Tie/SrvStmts.lean", "Tie/SrvAll.lean", "Tie/Defs.lean",
-                                             "Tie/MailboxOpen.lean", "Tie/Messages.lean", "Tie/Claim.lean", "Tie/Release.lean", "Tie/MailboxClose.lean", "Tie/SrvWs.lean", "PyWs.lean", "PySum.lean", "GeneratedSumm.lean", "Tie/Prune.lean", "Tie/UsageSql.lean", "Tie/SrvSweep.lean", "Tie/SrvTop.lean", "Tie/SrvSumm.lean"])
+                                             "Tie/MailboxOpen.lean", "Tie/Messages.lean", "Tie/Claim.lean", "Tie/Release.lean", "Tie/MailboxClose.lean", "Tie/SrvWs.lean", "PyWs.lean", "PySum.lean", "GeneratedSumm.lean", "Tie/Prune.lean", "Tie/UsageSql.lean", "Tie/SrvSweep.lean", "Tie/SrvTop.lean", "Tie/SrvSumm.lean", "Generated.lean"])
         hit = _cache_get("srv", key)
         if hit is not None:
             hit["cached"] = True
